@@ -304,6 +304,35 @@ def float_monitors(chk, tier):
             chk.extra.setdefault("dephasing_limit_max_deviation", []).append(worst)
             chk.count("float:dephasing_limit")
             chk.case(("dephasing", k), True)
+            # the same on a propagation axis coarser than the bath axis by a factor whose float ratio is not exact
+            # (0.6/0.2 = 2.9999999999999996): time-local propagation must sample the tensor at the right bath times
+            for (sysstep, m_) in ([(0.2, 3), (0.1, 3)] if k % 2 == 0 else [(0.1, 6), (0.3, 2)]):
+                with contextlib.redirect_stdout(io.StringIO()):
+                    agg, tb, rs = build_aggregate(c["seed"] + 7, 2, couplings=False, nt=int(round(240 / sysstep)) + 1, dt=sysstep)
+                    TD, ham = agg.get_RelaxationTensor(tb, relaxation_theory="stR", time_dependent=True)
+                    n = ham.dim
+                    rho0 = np.ones((n, n), dtype=complex) / n
+                    tp = qr.TimeAxis(0.0, int(200 / (m_ * sysstep)), round(m_ * sysstep, 10))
+                    sbi = agg.get_SystemBathInteraction()
+                    gs = [c2g(tb, sbi.CC.get_coft(site - 1, site - 1)) for site in range(1, n)]
+                    for nref in sorted(set([1, m_])):
+                        prop = qr.ReducedDensityMatrixPropagator(tp, ham, RTensor=TD)
+                        try:
+                            out = np.array(prop.propagate(qr.ReducedDensityMatrix(data=rho0.copy()), Nref=nref).data)
+                        except Exception as e:
+                            chk.violation("float:td_refinement_refused", "time-local propagation on a %g fs axis with a tensor on a %g fs bath axis, Nref=%d, was refused: %r"
+                                          % (m_ * sysstep, sysstep, nref, e), "monitor", dict(c, sysstep=sysstep, m=m_, nref=nref))
+                            continue
+                        worst = 0.0
+                        for site in range(1, n):
+                            ana = np.abs(rho0[0, site]) * np.exp(-np.real(gs[site - 1][::m_][:tp.length]))
+                            worst = max(worst, float(np.max(np.abs(np.abs(out[:, 0, site]) - ana))))
+                        if worst > 5e-3:
+                            chk.violation("float:dephasing_limit_coarse", "uncoupled sites, bath step %g fs, propagation step %g fs, Nref=%d: |rho_0k(t)| deviates from "
+                                          "exp(-Re g(t)) by %g (> 5e-3)" % (sysstep, m_ * sysstep, nref, worst), "monitor", dict(c, sysstep=sysstep, m=m_, nref=nref))
+                        chk.extra.setdefault("dephasing_limit_coarse_max_deviation", []).append(worst)
+                        chk.count("float:dephasing_limit_coarse")
+                        chk.case(("dephasing_coarse", k, sysstep, m_, nref), True)
         except Exception as e:
             import traceback
             chk.violation("float:exception:dephasing", "dephasing-limit monitor raised %r %s" % (e, traceback.format_exc()[-600:]), "monitor", c)
